@@ -141,8 +141,10 @@ fn failure_class(msg: &str) -> String {
         let rest = &msg[i + 8..];
         let end = rest.find(" ::").unwrap_or(rest.len().min(120));
         format!("oracle: {}", &rest[..end])
-    } else if m.contains("exceeded maximum number of branches") || m.contains("max_branches") {
-        "cap: loom branch limit exceeded".into()
+    } else if m.contains("exceeded maximum number of branches") || m.contains("max_branches") || (m.contains("execution.rs") && m.contains("overflow")) {
+        // 200 000 scheduling points in ONE execution of a program of two or three public calls:
+        // some thread loops without ever blocking or terminating
+        "livelock: a thread keeps running without blocking or terminating (branch limit of one execution exceeded)".into()
     } else {
         format!("panic: {}", util::panic_class(msg))
     }
@@ -270,10 +272,6 @@ fn parent(family: &str, tier: &str, progs: &[Program], merge: Option<String>) ->
                 } else {
                     let msg = v["failure"].as_str().unwrap_or("").to_string();
                     let class = failure_class(&msg);
-                    if class.starts_with("cap:") {
-                        machinery.push(format!("program #{i} ({}): {class}", p.describe()));
-                        continue;
-                    }
                     let e = classes.entry(class.clone()).or_insert((0, json!({"property": family_property(family), "class": class, "config": format!("timeouts that fire: {k}, preemption bound {pb}"), "history": p.history(), "detail": msg})));
                     e.0 += 1;
                 }
